@@ -142,7 +142,8 @@ def _sum_split(t):
 class Instantiator:
     """Incremental axiom instantiation for the terms of one path / query."""
 
-    def __init__(self, pairwise=True, structural=True):
+    def __init__(self, pairwise=True, structural=True, deep_gen=1):
+        self.deep_gen = deep_gen
         self.seen_terms = {}  # id -> term (kept alive)
         self.done_apps = {}  # id -> (generation, term)
         self.apps_by_fn = {}
@@ -169,7 +170,7 @@ class Instantiator:
             self.done_apps[a.get_id()] = (g, a)
             axs = self._axioms_for(a, g)
             fn = a.decl().name()
-            if self.pairwise and g == 0:
+            if self.pairwise and g <= self.deep_gen:
                 axs += self._pairwise(fn, a)
             self.apps_by_fn.setdefault(fn, []).append(a)
             out += axs
@@ -188,7 +189,7 @@ class Instantiator:
         x = a.arg(0)
         ax = []
         N = self.names.add
-        deep = g == 0 and self.structural
+        deep = g <= self.deep_gen and self.structural
         if fn == "sqrt":
             ax.append(z3.Implies(x >= 0, z3.And(a >= 0, a * a == x)))
             N("sqrt: x>=0 => sqrt(x)>=0 and sqrt(x)^2=x")
@@ -312,8 +313,9 @@ class Instantiator:
                 z3.Implies(e == 1, a == b),
                 z3.Implies(e == 2, a == b * b),
                 z3.Implies(b == 1, a == 1),
+                z3.Implies(z3.And(e == -1, b != 0), a * b == 1),
             ]
-            N("pow: positivity, 0^a=0 (a>0), x^0=1, x^1=x, x^2, 1^a=1")
+            N("pow: positivity, 0^a=0 (a>0), x^0=1, x^1=x, x^2, 1^a=1, x^-1=1/x")
             if deep:
                 ax.append(z3.Implies(b > 0, a == UF["exp"](e * UF["log"](b))))
                 N("x>0 => pow(x,a)=exp(a log x)")
